@@ -109,6 +109,13 @@ def zipAll {α β} (f : α → β → Bool) : List α → List β → Bool
   | a :: as, b :: bs => f a b && zipAll f as bs
   | _, _ => false
 
+/-- gate of the oracle, in Spec's own words (no function of the model under judgement): a tree
+    whose tips have distinct names, at least one -/
+def specUniq (t : T) : Bool := decide t.tipNames.Nodup && !t.tipNames.isEmpty
+
+/-- … whose root is not a tip and which has no single-child node: a phylogeny of the property -/
+def specWf (t : T) : Bool := specUniq t && t.kids.length != 1 && t.noSingle
+
 /- ## oracle: Spec predicates on the implementation's own output -/
 
 def absR (a : Rat) : Rat := if a ≥ 0 then a else -a
